@@ -250,6 +250,37 @@ def run_case(case, ctx):
                 f'{label}: everything fits (M = {M}) but stop = '
                 f'{run.info["stop"]!r} instead of {refrun.info["stop"]!r}')
 
+    # ---- (a') fractional budgets: never more than m indices means floor(m)
+    for m in sorted({float(x) + f for x in rng.integers(1, M + 1, size=3)
+            for f in (0.5, 0.75, 0.4)}):
+        run, kw = go(nswp=nswp, m=m)
+        label = f'budget m={m}'
+        if not judge_common(ctx, run, n, kw, label):
+            continue
+        j = int(np.searchsorted(cum, int(np.floor(m)), side='right'))
+        ctx.check('prefix', same_batches(run.batches, refrun.batches[:j]),
+            f'{label}: evaluated {run.evaluated} indices in '
+            f'{len(run.batches)} batches, the budget admits the first {j} '
+            f'reference batches ({int(cum[j - 1]) if j else 0} indices)')
+    # ---- (a'') the budget as the ONLY stop criterion, ended by the callback
+    if len(refrun.sweeps) >= 1:
+        s_cb = int(rng.integers(1, len(refrun.sweeps) + 1))
+        full_b = dict(base)
+        full_b['m'] = M + 1000
+        if use_cache:
+            full_b['cache'] = {}
+        runb = crossh.execute(crossh.Run(T, cb_true_at=s_cb), Y0, **full_b)
+        if judge_common(ctx, runb, n, full_b, 'budget-only run stopped by the '
+                'callback'):
+            lastb = runb.events[-1] if runb.events else None
+            conv_first = any(sw[2].get('stop') == 'conv'
+                for sw in runb.sweeps[:s_cb])
+            ctx.check('cb-stop', (runb.info['stop'] in ('cb', 'conv'))
+                and lastb is not None and lastb[0] == 'cb', lambda: 'only a '
+                f'budget given, callback returns True at sweep {s_cb}: stop '
+                f'{runb.info["stop"]!r}, last event '
+                f'{lastb[:2] if lastb else None} (requests after the stop)')
+
     # ---- (b) objective returns None at call k
     for k in range(1, K + 1):
         run, kw = go(none_at=k, nswp=nswp)
